@@ -4,7 +4,9 @@ package hkdf
 
 // Contracts for package hkdf, checked by /verif (govc). Comment-only file: it adds no declarations.
 
+// Assumed (body calls x/crypto/hkdf): reading 32 bytes from an HKDF-SHA-512 stream cannot fail (the limit is 255*64
+// bytes, x/crypto/hkdf/hkdf.go), so err is always nil and the key is the idealised hkdf() of the inputs.
 //@ func Sha512(master, salt, info) (key, err)
 //@   trusted
 //@   pure
-//@   ensures err == nil ==> seq(key) == hkdf(seq(master), seq(salt), seq(info))
+//@   ensures err == nil && seq(key) == hkdf(seq(master), seq(salt), seq(info))
